@@ -34,7 +34,7 @@ def cases(tier, seed):
             for routing in T.ROUTINGS:
                 for kb in (0, None):
                     sc = T.gen_scenario(rng, N * P, epochs=rng.choice([2, 3, 4]), ops_per_rank=rng.choice([2, 5]), ttl=rng.choice([2, 3]), maxfan=2,
-                                        hprog=15, hcb=12, p_cb=10, p_bcast=8, sizes=(0, 8, 100, 600))
+                                        hprog=15, hcb=12, p_cb=10, p_bcast=8, sizes=(0, 8, 100, 600), other=rng.choice([0, 0, 60]))
                     out.append((sc, T.Config(N, P, routing, kb, irecvs=rng.choice([1, 8]), isends_wait=rng.choice([0, 4]), issend=rng.choice([0, 8]),
                                              policy=rng.choice(["racer", "racer", "late", "uniform", "burst", "starve"]), eager=rng.choice([0, 50, 100]),
                                              sim_seed=rng.below(1 << 30))))
@@ -52,12 +52,28 @@ def directed_cases(tier, seed):
         a, b, c = [(0, 1, 2), (1, 2, 0), (2, 0, 1), (0, 2, 1)][rep % 4]
         uid = T.find_root_uid(3, params, [8], [b, c], start=(1 << 20) + 1000 * (rep % 7))
         ops = [(0, c, "async", uid, a, 8, 1)]
+        if rep % 3 == 2:
+            # a second ygm::comm of the same process ends a barrier with totals (1,1) = the balanced first-round totals
+            # of the classic schedule: state wrongly shared between communicators lets barrier 0 leave after one round
+            ops = [(0, -1, "other", 1)] + ops
         ops += [(0, b, "progress")] * rng.below(6)
         ops += [(1, a, "async", uid + 100000, b, 8, 0)]
         sc = T.Scenario(3, 2, params, [8], ops)
         out.append((sc, T.Config(1, 3, "NONE", 0, irecvs=rng.choice([1, 8]), isends_wait=rng.choice([0, 4]), issend=rng.choice([0, 8]),
                                  policy=rng.choice(["racer", "uniform", "burst", "late", "starve"]), eager=rng.choice([50, 100]),
                                  sim_seed=rng.below(1 << 30))))
+    # the same schedule FORCED with simmpi's gates (a gate opens on the awaited event or after 20000 scheduling steps, so
+    # it cannot deadlock a correct run): C sends m1 only after A has contributed (0,0) to barrier 0; B enters the
+    # barrier only after m2 has been delivered to it; deliveries to C (m4) are delayed by `hold` scheduling steps.
+    # Half of the cases first run a barrier with totals (1,1) on a second ygm::comm of the same process.
+    for rep in range(32 if tier == "quick" else 400):
+        a, b, c = [(0, 1, 2), (1, 2, 0), (2, 0, 1), (0, 2, 1)][rep % 4]
+        uid = T.find_root_uid(3, params, [8], [b, c], start=(1 << 20) + 1000 * (rep % 7))
+        ops = ([(0, -1, "other", 1)] if rep % 2 else []) + [(0, c, "gate", 0, a, 0, 1, 20000), (0, c, "async", uid, a, 8, 1), (0, b, "gate", 1, b, 0, 1, 20000)]
+        sc = T.Scenario(3, 1, params, [8], ops)
+        out.append((sc, T.Config(1, 3, "NONE", 0, irecvs=rng.choice([1, 8]), isends_wait=rng.choice([0, 4]), issend=rng.choice([0, 8]),
+                                 policy=rng.choice(["racer", "uniform", "burst", "late", "starve"]), eager=rng.choice([50, 100]),
+                                 sim_seed=rng.below(1 << 30), hold=(c, rng.choice([100, 300, 1000])))))
     return out
 
 
@@ -68,12 +84,14 @@ def systematic_cases(binary, tier, seed):
     rng = T.Rng(seed * 4099 + 11)
     params = {"maxfan": 2, "hprog": 0, "hcb": 0, "hbc": 0}
     out = []
-    bases = 2 if tier == "quick" else 8
+    bases = 4 if tier == "quick" else 8
     cap = 40 if tier == "quick" else 400
     for bi in range(bases):
-        a, b, c = [(0, 1, 2), (1, 2, 0)][bi % 2]
+        a, b, c = [(0, 1, 2), (1, 2, 0)][(bi // 2) % 2]
         uid = T.find_root_uid(3, params, [8], [b, c], start=(1 << 20) + 3000 + 17 * bi)
         ops = [(0, c, "async", uid, a, 8, 1)] + [(0, b, "progress")] * (bi % 3)
+        if bi % 2 == 1:
+            ops = [(0, -1, "other", 1)] + ops     # a second ygm::comm ended its barrier with totals (1,1) just before
         sc = T.Scenario(3, 1, params, [8], ops)
         base = T.Config(1, 3, "NONE", 0, irecvs=8, isends_wait=rng.choice([0, 4]), issend=0, policy="uniform", eager=100, sim_seed=rng.below(1 << 30))
         sr = T.run(binary, sc, base, timeout=60)
@@ -81,7 +99,7 @@ def systematic_cases(binary, tier, seed):
             out.append((sc, base))
             continue
         hev, _ = T.parse(sr.log)
-        first_enter = min([int(sr.log[ev.t].split(" ", 1)[0]) for ev in hev if ev.kind == "E"] or [0])
+        first_enter = min([int(ev.raw.split(" ", 1)[0]) for ev in hev if ev.kind == "E"] or [0])
         total = sr.steps
         js = list(range(max(0, first_enter - 1), total))
         stride = max(1, (2 * len(js)) // cap)
